@@ -178,27 +178,33 @@ fn poll_once(s: &mut Streaming<HealthCheckResponse>) -> Obs {
 }
 const HANG: u32 = 777;
 
-fn exec_on<T>(mut reporter: tonic_health::server::HealthReporter, svc: T, ops: &[Op]) -> Vec<Obs>
+/// `reporters` are clones of one HealthReporter, `svcs` clones of its HealthServer (they all share
+/// the one status map); operation i goes through reporter / client number `pick(i, len)`.
+fn exec_on<T>(mut reporters: Vec<tonic_health::server::HealthReporter>, svcs: Vec<T>, salt: u64, ops: &[Op]) -> Vec<Obs>
 where
     T: GrpcService<tonic::body::Body>,
     T::Error: Into<StdError>,
     T::ResponseBody: http_body::Body<Data = bytes::Bytes> + Send + 'static,
     <T::ResponseBody as http_body::Body>::Error: Into<StdError> + Send,
 {
-    let mut client = HealthClient::new(svc);
+    let pick = |i: usize, n: usize| (((i as u64 + 1).wrapping_mul(salt | 1) >> 3) % n as u64) as usize;
+    let mut clients: Vec<HealthClient<T>> = svcs.into_iter().map(HealthClient::new).collect();
+    let (nr, nc) = (reporters.len(), clients.len());
     let mut streams: Vec<Streaming<HealthCheckResponse>> = vec![];
     let mut outs = vec![];
-    for op in ops {
+    for (i, op) in ops.iter().enumerate() {
+        let reporter = &mut reporters[pick(i, nr)];
+        let client = &mut clients[pick(i + 1000, nc)];
         let o = catch(AssertUnwindSafe(|| match op {
             Op::Set(n, v) => match spin(reporter.set_service_status(n.as_str(), status_of(*v)), 1000) {
                 Ok(()) => Obs::Unit,
                 Err(()) => Obs::Other(HANG),
             },
-            Op::SetServing(i) => match spin(set_typed(&reporter, *i, true), 1000) {
+            Op::SetServing(i) => match spin(set_typed(reporter, *i, true), 1000) {
                 Ok(()) => Obs::Unit,
                 Err(()) => Obs::Other(HANG),
             },
-            Op::SetNotServing(i) => match spin(set_typed(&reporter, *i, false), 1000) {
+            Op::SetNotServing(i) => match spin(set_typed(reporter, *i, false), 1000) {
                 Ok(()) => Obs::Unit,
                 Err(()) => Obs::Other(HANG),
             },
@@ -233,7 +239,21 @@ where
 }
 fn exec(ops: &[Op]) -> Vec<Obs> {
     let (reporter, server) = health_reporter();
-    exec_on(reporter, server, ops)
+    exec_on(vec![reporter], vec![server], 0, ops)
+}
+/// the same history through `n_rep` clones of the reporter and `n_cli` clients on clones of the
+/// server; with an odd salt the reporter returned by health_reporter() itself is dropped first
+fn exec_clones(ops: &[Op], n_rep: usize, n_cli: usize, salt: u64) -> Vec<Obs> {
+    let (reporter, server) = health_reporter();
+    let mut reporters: Vec<_> = (0..n_rep.max(1)).map(|_| reporter.clone()).collect();
+    if salt % 2 == 1 {
+        drop(reporter);
+    } else {
+        reporters[0] = reporter;
+    }
+    let svcs: Vec<_> = (0..n_cli.max(1)).map(|_| server.clone()).collect();
+    drop(server);
+    exec_on(reporters, svcs, salt, ops)
 }
 
 // ------------------------------------------------------------------ the direct oracle
@@ -428,7 +448,14 @@ fn settle(ops: &mut Vec<Op>) {
 }
 
 fn push_case(out: &mut Out, kind: &str, ops: Vec<Op>, settled: bool) {
-    let outs = exec(&ops);
+    push_case_on(out, kind, ops, settled, None)
+}
+/// `clones`: (reporter clones, clients, salt) - see exec_clones
+fn push_case_on(out: &mut Out, kind: &str, ops: Vec<Op>, settled: bool, clones: Option<(usize, usize, u64)>) {
+    let outs = match clones {
+        None => exec(&ops),
+        Some((r, c, salt)) => exec_clones(&ops, r, c, salt),
+    };
     let verdict = if settled { oracle_settled(&ops, &outs) } else { oracle(&ops, &outs) };
     let n_next = ops.iter().filter(|o| matches!(o, Op::Next(_))).count();
     let n_items = outs.iter().filter(|o| matches!(o, Obs::Item(_))).count();
@@ -444,7 +471,7 @@ fn push_case(out: &mut Out, kind: &str, ops: Vec<Op>, settled: bool) {
     });
     out.push(Case {
         kind: kind.to_string(),
-        input: json!({"ops": ops.iter().map(|o| o.json()).collect::<Vec<_>>(), "settled": settled}),
+        input: json!({"ops": ops.iter().map(|o| o.json()).collect::<Vec<_>>(), "settled": settled, "clones": clones.map(|(r, c, s)| json!([r, c, s]))}),
         model: format!("obs_history {}", coq_list(&ops, |o| format!("({})", o.coq()))),
         impl_obs: Tr::L(outs.iter().map(|o| o.tr()).collect()),
         oracle: verdict,
@@ -582,18 +609,42 @@ fn corpus() -> Vec<(&'static str, Vec<Op>)> {
 }
 
 // ------------------------------------------------------------------ multi-thread stress
-/// Concurrent writers and watchers on a multi-threaded runtime.  Only the safety half and the
-/// final convergence are judged: every reported status was set for that service; after the
-/// writers stop every stream reports the final status; clearing ends the stream.
+/// Concurrent writers, watchers, checkers and a clear / re-register loop on a multi-threaded
+/// runtime.  Only the safety half and the final convergence are judged: every status reported or
+/// checked was set for that service (three of the services only ever get ONE status, so two of
+/// the three values are foreign to them); a stream of a service that is never cleared never
+/// ends; after the writers stop every stream reports the final status; the stream of a cleared
+/// service ends.  Writers go through set_service_status and through the typed API.
+struct SvcB;
+impl tonic::server::NamedService for SvcB {
+    const NAME: &'static str = "b";
+}
 fn stress(seed: u64, round: u64) -> Result<Value, String> {
+    use std::sync::atomic::Ordering::SeqCst;
     use tokio_stream::StreamExt;
     let rt = tokio::runtime::Builder::new_multi_thread().worker_threads(4).enable_time().build().map_err(|e| e.to_string())?;
     rt.block_on(async move {
         let (reporter, server) = health_reporter();
-        // allowed statuses per service are disjoint enough to make "never a foreign status" bite
-        let plan: Vec<(&str, Vec<u8>, u8)> = vec![("", vec![1, 2], 2), ("a", vec![0, 2], 0), ("b", vec![0, 1], 1), ("gone", vec![1, 2], 2)];
+        // (name, statuses ever set for it, final status)
+        let plan: Vec<(&str, Vec<u8>, u8)> = vec![
+            ("", vec![1, 2], 2),
+            ("a", vec![0, 2], 2), // final status through set_not_serving::<SvcA>()
+            ("b", vec![0, 1], 1), // final status through set_serving::<SvcB>()
+            ("gone", vec![1, 2], 2),
+            ("only0", vec![0], 0),
+            ("only1", vec![1], 1),
+            ("A", vec![2], 2), // only ever through set_not_serving::<SvcCapA>()
+        ];
+        async fn write(rep: &tonic_health::server::HealthReporter, n: &str, v: u8, typed: bool) {
+            match (n, v, typed) {
+                ("A", _, _) => rep.set_not_serving::<SvcCapA>().await,
+                ("a", 2, true) => rep.set_not_serving::<SvcA>().await,
+                ("b", 1, true) => rep.set_serving::<SvcB>().await,
+                _ => rep.set_service_status(n, status_of(v)).await,
+            }
+        }
         for (n, allowed, _) in &plan {
-            reporter.set_service_status(*n, status_of(allowed[0])).await;
+            write(&reporter, n, allowed[0], false).await;
         }
         let mut watchers = vec![];
         for (wi, (n, allowed, fin)) in plan.iter().enumerate() {
@@ -606,7 +657,7 @@ fn stress(seed: u64, round: u64) -> Result<Value, String> {
                     let _ = (wi, k);
                     let mut reports = 0u64;
                     let mut last = None;
-                    let deadline = tokio::time::Instant::now() + std::time::Duration::from_secs(20);
+                    let deadline = tokio::time::Instant::now() + std::time::Duration::from_secs(30);
                     loop {
                         let item = tokio::time::timeout_at(deadline, st.next()).await;
                         match item {
@@ -627,7 +678,7 @@ fn stress(seed: u64, round: u64) -> Result<Value, String> {
                                 last = Some(r.status);
                                 // the writers publish the marker status last; a registered service
                                 // has converged once the marker is seen after the writers stopped
-                                if n != "gone" && DONE.load(std::sync::atomic::Ordering::SeqCst) == round + 1 && r.status == fin {
+                                if n != "gone" && DONE.load(SeqCst) == round + 1 && r.status == fin {
                                     return Ok(reports);
                                 }
                             }
@@ -642,47 +693,194 @@ fn stress(seed: u64, round: u64) -> Result<Value, String> {
             let plan = plan.clone();
             writers.push(tokio::spawn(async move {
                 let mut r = Rng::new(seed ^ (t + 1).wrapping_mul(0x9E37) ^ round.wrapping_mul(0x1234567));
+                let mut typed = 0u64;
                 for i in 0..400u64 {
                     let (n, allowed, _) = r.pick(&plan).clone();
-                    rep.set_service_status(n, status_of(*r.pick(&allowed))).await;
+                    let ty = r.chance(1, 2);
+                    let v = *r.pick(&allowed);
+                    if n == "A" || (ty && ((n == "a" && v == 2) || (n == "b" && v == 1))) {
+                        typed += 1;
+                    }
+                    write(&rep, n, v, ty).await;
                     if i % 16 == 0 {
                         tokio::task::yield_now().await;
                     }
                 }
+                typed
             }));
         }
-        // concurrent checkers: a check only ever returns an allowed status
-        let mut checkers = vec![];
+        // "flap" is registered (always SERVING) and cleared again and again while two tasks keep
+        // subscribing to it: they may be refused (NOT_FOUND), a stream they get may only report
+        // SERVING, and once the last clear has happened their stream must end
+        let flap_done = std::sync::Arc::new(std::sync::atomic::AtomicBool::new(false));
+        let flapper = {
+            let mut rep = reporter.clone();
+            let mut client = HealthClient::new(server.clone());
+            let done = flap_done.clone();
+            tokio::spawn(async move {
+                // nobody else writes "flap": what this task set or cleared is what it must read
+                // back, however contended the lock is (real-time order of linearizability)
+                for i in 0..200u64 {
+                    if i % 5 == 0 {
+                        rep.set_serving::<SvcA2>().await; // NAME = "flap"
+                    } else {
+                        rep.set_service_status("flap", ServingStatus::Serving).await;
+                    }
+                    match client.check(req("flap")).await {
+                        Ok(r) if r.get_ref().status == 1 => {}
+                        o => return Err(format!("round {}: check(flap) right after it was set to SERVING = {:?}", i, o.map(|x| x.into_inner().status).map_err(|e| e.code()))),
+                    }
+                    if i % 3 == 0 {
+                        tokio::task::yield_now().await;
+                    }
+                    rep.clear_service_status("flap").await;
+                    match client.check(req("flap")).await {
+                        Err(e) if e.code() == tonic::Code::NotFound => {}
+                        o => return Err(format!("round {}: check(flap) right after it was cleared = {:?}", i, o.map(|x| x.into_inner().status).map_err(|e| e.code()))),
+                    }
+                    if i % 7 == 0 {
+                        tokio::task::yield_now().await;
+                    }
+                }
+                done.store(true, SeqCst);
+                Ok::<(), String>(())
+            })
+        };
+        let mut flap_watchers = vec![];
         for _ in 0..2 {
+            let mut client = HealthClient::new(server.clone());
+            let done = flap_done.clone();
+            flap_watchers.push(tokio::spawn(async move {
+                let deadline = tokio::time::Instant::now() + std::time::Duration::from_secs(30);
+                let (mut streams, mut refused, mut reports) = (0u64, 0u64, 0u64);
+                loop {
+                    let finished = done.load(SeqCst); // read BEFORE subscribing
+                    match client.watch(req("flap")).await {
+                        Err(e) if e.code() == tonic::Code::NotFound => {
+                            refused += 1;
+                            if finished {
+                                return Ok((streams, refused, reports));
+                            }
+                            tokio::task::yield_now().await;
+                        }
+                        Err(e) => return Err(format!("watch(flap): {}", e)),
+                        Ok(r) => {
+                            if finished {
+                                return Err("watch(flap) succeeded after the last clear".to_string());
+                            }
+                            streams += 1;
+                            let mut st = r.into_inner();
+                            let mut seen = 0;
+                            loop {
+                                match tokio::time::timeout_at(deadline, st.next()).await {
+                                    Err(_) => return Err(format!("a stream of \"flap\" did not end although the service was cleared (it reported {} statuses)", seen)),
+                                    Ok(None) => break,
+                                    Ok(Some(Err(e))) => return Err(format!("stream of flap: {}", e)),
+                                    Ok(Some(Ok(r))) => {
+                                        if r.status != 1 {
+                                            return Err(format!("stream of \"flap\" reported {} which was never set for it", r.status));
+                                        }
+                                        seen += 1;
+                                        reports += 1;
+                                    }
+                                }
+                            }
+                            if seen == 0 {
+                                return Err("a stream of \"flap\" ended without reporting the status current at subscription".to_string());
+                            }
+                        }
+                    }
+                }
+            }));
+        }
+        // late subscribers: Watch calls issued WHILE the writers run.  A service that is never
+        // cleared can always be watched, and the first report is one of its statuses
+        let mut late = vec![];
+        for c in 0..2usize {
+            let mut client = HealthClient::new(server.clone());
+            let plan = plan.clone();
+            late.push(tokio::spawn(async move {
+                let mut opened = 0u64;
+                for i in 0..60usize {
+                    let (n, allowed, _) = &plan[(i * 3 + c) % plan.len()];
+                    if *n == "gone" {
+                        continue;
+                    }
+                    let mut st = client.watch(req(n)).await.map_err(|e| format!("watch({:?}) of a registered service while the writers run: {}", n, e))?.into_inner();
+                    match tokio::time::timeout(std::time::Duration::from_secs(20), st.next()).await {
+                        Ok(Some(Ok(r))) if allowed.iter().any(|a| *a as i32 == r.status) => opened += 1,
+                        Ok(Some(Ok(r))) => return Err(format!("first report of a late stream of {:?} = {} which was never set for it", n, r.status)),
+                        Ok(o) => return Err(format!("late stream of {:?}: first poll gave {:?}", n, o.map(|x| x.map(|y| y.status).map_err(|e| e.code())))),
+                        Err(_) => return Err(format!("late stream of {:?} reported nothing", n)),
+                    }
+                    if i % 4 == 0 {
+                        tokio::task::yield_now().await;
+                    }
+                }
+                Ok::<u64, String>(opened)
+            }));
+        }
+        // concurrent checkers: a check only ever returns a status set for that service
+        let mut checkers = vec![];
+        for c in 0..2usize {
             let mut client = HealthClient::new(server.clone());
             let plan = plan.clone();
             checkers.push(tokio::spawn(async move {
-                for i in 0..300usize {
-                    let (n, allowed, _) = &plan[i % 3];
-                    let r = client.check(req(n)).await.map_err(|e| format!("check({:?}): {}", n, e))?.into_inner();
-                    if !allowed.iter().any(|a| *a as i32 == r.status) {
-                        return Err(format!("check({:?}) = {} which was never set for it", n, r.status));
+                for i in 0..420usize {
+                    let (n, allowed, _) = &plan[(i + c) % plan.len()];
+                    match client.check(req(n)).await {
+                        Ok(r) => {
+                            let r = r.into_inner();
+                            if !allowed.iter().any(|a| *a as i32 == r.status) {
+                                return Err(format!("check({:?}) = {} which was never set for it", n, r.status));
+                            }
+                        }
+                        Err(e) if *n == "gone" && e.code() == tonic::Code::NotFound => {} // cleared at the end
+                        Err(e) => return Err(format!("check({:?}): {}", n, e)),
+                    }
+                    if i % 7 == 0 {
+                        match client.check(req("flap")).await {
+                            Ok(r) if r.get_ref().status == 1 => {}
+                            Err(e) if e.code() == tonic::Code::NotFound => {}
+                            o => return Err(format!("check(flap) = {:?}", o.map(|x| x.into_inner().status))),
+                        }
                     }
                 }
                 Ok::<(), String>(())
             }));
         }
+        let mut typed_sets = 0;
         for w in writers {
-            w.await.map_err(|e| e.to_string())?;
+            typed_sets += w.await.map_err(|e| e.to_string())?;
         }
         // final statuses, then the marker that lets the watchers stop; "gone" is cleared
         let mut rep = reporter.clone();
         for (n, _, fin) in &plan {
-            rep.set_service_status(*n, status_of(*fin)).await;
+            write(&rep, n, *fin, true).await;
         }
-        DONE.store(round + 1, std::sync::atomic::Ordering::SeqCst);
+        DONE.store(round + 1, SeqCst);
         // set once more so that a watcher that saw the final value before the marker wakes up
         for (n, _, fin) in &plan {
-            rep.set_service_status(*n, status_of(*fin)).await;
+            write(&rep, n, *fin, true).await;
         }
         rep.clear_service_status("gone").await;
         for c in checkers {
             c.await.map_err(|e| e.to_string())??;
+        }
+        let mut late_streams = 0;
+        for l in late {
+            late_streams += l.await.map_err(|e| e.to_string())??;
+        }
+        let flap_result = flapper.await.map_err(|e| e.to_string())?;
+        if flap_result.is_err() {
+            flap_done.store(true, SeqCst);
+        }
+        flap_result?;
+        let (mut flap_streams, mut flap_refused) = (0, 0);
+        for w in flap_watchers {
+            let (s, r, _) = w.await.map_err(|e| e.to_string())??;
+            flap_streams += s;
+            flap_refused += r;
         }
         let mut total = 0;
         for w in watchers {
@@ -698,49 +896,56 @@ fn stress(seed: u64, round: u64) -> Result<Value, String> {
                 (_, o) => return Err(format!("final check({:?}) = {:?}, want {}", n, o.map(|x| x.into_inner().status), fin)),
             }
         }
-        Ok(json!({"reports": total}))
+        Ok(json!({"reports": total, "sets through the typed API": typed_sets, "streams opened while the writers ran": late_streams, "flap: streams opened": flap_streams, "flap: watch refused": flap_refused}))
     })
+}
+struct SvcA2;
+impl tonic::server::NamedService for SvcA2 {
+    const NAME: &'static str = "flap";
 }
 static DONE: std::sync::atomic::AtomicU64 = std::sync::atomic::AtomicU64::new(0);
 
 // ------------------------------------------------------------------ deterministic interleavings
-// Operation A and the sequence B run in two spawned tasks of a current-thread runtime.  Each
-// first burns some units of tokio's cooperative budget (k for A, j for B): when a task's budget
-// runs out inside a lock acquisition (or a stream poll) that call returns Pending, i.e. the task
-// is switched out exactly there and the other one runs.  So A is parked at each of its
-// acquisitions in turn and resumes between (or inside) the operations of B, depending on (k, j).
-// Afterwards every stream is polled to quiescence and the service is checked.  The outcome must
-// be linearizable: what SOME sequential history with A atomic allows (A before B, between two
-// operations of B, after B - restricted by real time: A precedes every operation of B that
-// started after A had finished).
+// One operation per concurrent task (A, or A and C) and the sequence B run in spawned tasks of a
+// current-thread runtime.  Each first burns some units of tokio's cooperative budget: when a
+// task's budget runs out inside a lock acquisition that call returns Pending, i.e. the task is
+// switched out exactly there and the others run.  So every task is parked at each of its
+// acquisitions in turn and resumes between the operations of the others, depending on the
+// offsets.  Every call is stamped with a logical clock at its invocation and at its return;
+// afterwards every stream is polled to quiescence and the service is checked.  What is recorded
+// is the CONCURRENT HISTORY (calls with invocation / return times and results).  It must be
+// linearizable: some order of the calls that respects real time (a call that returned before
+// another was invoked comes first) explains every result sequentially.  Coq searches that order
+// with the model (obs_conc = lin_check), the oracle below searches it with the plain-map replay.
 //
-// In a scenario `Op::Next(j)` means "the stream opened by the j-th Watch of the prefix / B"
-// (whether or not that Watch succeeded); A's own stream, if A is a Watch, is the last slot.
+// In a scenario `Op::Next(j)` means "the stream of slot j"; slots are numbered: the Watch calls
+// of the main task (prefix, then B) in program order, then the Watch calls of the concurrent
+// tasks.  In the Coq history a stream is named by the invocation time of its Watch call.
 #[derive(Clone)]
 struct Scenario {
     prefix: Vec<Op>,
-    a: Op,
+    conc: Vec<Op>, // one operation per concurrent task
     b: Vec<Op>,
 }
 const SETTLE_POLLS: usize = 3;
-const NO_STREAM: usize = 999;
-struct Observed {
-    main: Vec<Obs>,   // prefix ++ b, Watch results carry the slot number
-    a: Obs,           // Watch(slot) if A is a successful Watch
-    settle: Vec<Obs>, // SETTLE_POLLS polls per slot, then Check of every name used and of ""
-    a_done_before: Vec<bool>, // per operation of B: had A finished when it started
-    a_polls: usize,
-    b_polls: usize,
+const NO_STREAM: usize = 4000;
+#[derive(Clone, Debug)]
+struct Rec {
+    inv: usize,
+    ret: usize,
+    op: Op,              // as in the scenario (Next(slot))
+    out: Obs,
+    slot: Option<usize>, // for a Watch: the slot of its stream (whether or not it succeeded)
+    settle: bool,        // one of the closing polls / checks
+    task: usize,         // 0 = main task (prefix, B, closing), i + 1 = concurrent task i
+    polls: usize,        // how often the call's future was polled (> 1: it was switched out)
 }
 fn scenario_names(sc: &Scenario) -> Vec<String> {
-    let mut v: Vec<String> = sc.prefix.iter().chain(std::iter::once(&sc.a)).chain(sc.b.iter()).filter_map(|o| o.name()).collect();
+    let mut v: Vec<String> = sc.prefix.iter().chain(sc.conc.iter()).chain(sc.b.iter()).filter_map(|o| o.name()).collect();
     v.push(String::new());
     v.sort();
     v.dedup();
     v
-}
-fn n_slots(sc: &Scenario) -> usize {
-    sc.prefix.iter().chain(sc.b.iter()).chain(std::iter::once(&sc.a)).filter(|o| matches!(o, Op::Watch(_))).count()
 }
 
 struct Counted<F> {
@@ -831,62 +1036,125 @@ fn turn_runtime() -> Result<tokio::runtime::Runtime, String> {
         .map_err(|e| e.to_string())
 }
 
-fn run_interleaved(sc: &Scenario, k: usize, j: usize) -> Result<Observed, String> {
-    use std::sync::atomic::Ordering::SeqCst;
+
+type Clock = std::sync::Arc<std::sync::atomic::AtomicUsize>;
+fn tick(c: &Clock) -> usize {
+    c.fetch_add(1, std::sync::atomic::Ordering::SeqCst)
+}
+/// one stamped call
+async fn stamped<T>(
+    clock: &Clock,
+    reporter: &mut tonic_health::server::HealthReporter,
+    client: &mut HealthClient<T>,
+    slots: &mut Vec<Option<Streaming<HealthCheckResponse>>>,
+    op: &Op,
+    rec_op: &Op,
+    task: usize,
+    settle: bool,
+) -> Rec
+where
+    T: GrpcService<tonic::body::Body>,
+    T::Error: Into<StdError>,
+    T::ResponseBody: http_body::Body<Data = bytes::Bytes> + Send + 'static,
+    <T::ResponseBody as http_body::Body>::Error: Into<StdError> + Send,
+{
+    let inv = tick(clock);
+    let (fut, polls, _done) = counted(main_op(reporter, client, slots, op));
+    let out = fut.await;
+    let ret = tick(clock);
+    Rec { inv, ret, op: rec_op.clone(), out, slot: None, settle, task, polls: polls.load(std::sync::atomic::Ordering::SeqCst) }
+}
+
+/// `ks[i]`: budget units burnt by concurrent task i before its call, `j`: by B before its first
+fn run_interleaved(sc: &Scenario, ks: &[usize], j: usize) -> Result<Vec<Rec>, String> {
     let rt = turn_runtime()?;
     let sc = sc.clone();
+    let ks = ks.to_vec();
     rt.block_on(async move {
         let body = async {
+            let clock: Clock = Default::default();
             let (mut reporter, server) = health_reporter();
             let mut client = HealthClient::new(server.clone());
             let mut slots: Vec<Option<Streaming<HealthCheckResponse>>> = vec![];
-            let mut main = vec![];
+            let mut recs: Vec<Rec> = vec![];
             for op in &sc.prefix {
-                main.push(main_op(&mut reporter, &mut client, &mut slots, op).await);
+                let mut r = stamped(&clock, &mut reporter, &mut client, &mut slots, op, op, 0, false).await;
+                if matches!(op, Op::Watch(_)) {
+                    r.slot = Some(slots.len() - 1);
+                }
+                recs.push(r);
             }
-            // task A
-            let mut rep_a = reporter.clone();
-            let mut client_a = HealthClient::new(server.clone());
-            let a = sc.a.clone();
-            let (fut_a, a_polls, a_done) = counted(async move {
-                burn(k).await;
-                let mut own = vec![];
-                let o = main_op(&mut rep_a, &mut client_a, &mut own, &a).await;
-                (o, own.pop().flatten())
-            });
-            let ha = tokio::spawn(fut_a);
+            // the concurrent tasks; a task that polls a stream gets that stream for the time being
+            let mut handles = vec![];
+            for (i, op) in sc.conc.iter().enumerate() {
+                let mut rep = reporter.clone();
+                let mut cl = HealthClient::new(server.clone());
+                let clock = clock.clone();
+                let op = op.clone();
+                let k = ks.get(i).copied().unwrap_or(0);
+                let lent = match &op {
+                    Op::Next(s) => slots.get_mut(*s).and_then(|x| x.take()),
+                    _ => None,
+                };
+                handles.push(tokio::spawn(async move {
+                    burn(k).await;
+                    let mut own = vec![];
+                    let run_op = if let Op::Next(_) = &op {
+                        own.push(lent);
+                        Op::Next(0)
+                    } else {
+                        op.clone()
+                    };
+                    let r = stamped(&clock, &mut rep, &mut cl, &mut own, &run_op, &op, i + 1, false).await;
+                    (r, own.pop().flatten())
+                }));
+            }
             // task B: owns the reporter, the client and the streams opened so far
             let b = sc.b.clone();
-            let a_done_b = a_done.clone();
-            let (fut_b, b_polls, _b_done) = counted(async move {
+            let clock_b = clock.clone();
+            let hb = tokio::spawn(async move {
                 burn(j).await;
-                let (mut outs, mut before) = (vec![], vec![]);
+                let mut out = vec![];
                 for op in &b {
-                    before.push(a_done_b.load(SeqCst));
-                    outs.push(main_op(&mut reporter, &mut client, &mut slots, op).await);
+                    let mut r = stamped(&clock_b, &mut reporter, &mut client, &mut slots, op, op, 0, false).await;
+                    if matches!(op, Op::Watch(_)) {
+                        r.slot = Some(slots.len() - 1);
+                    }
+                    out.push(r);
                 }
-                (outs, before, reporter, client, slots)
+                (out, reporter, client, slots)
             });
-            let hb = tokio::spawn(fut_b);
-            let (mut a_out, a_stream) = ha.await.map_err(|e| format!("operation A panicked: {}", e))?;
-            let (b_outs, a_done_before, mut reporter, mut client, mut slots) = hb.await.map_err(|e| format!("sequence B panicked: {}", e))?;
-            main.extend(b_outs);
-            if matches!(sc.a, Op::Watch(_)) {
-                slots.push(a_stream);
-                if let Obs::Watch(_) = a_out {
-                    a_out = Obs::Watch(slots.len() - 1);
-                }
+            let mut conc_out = vec![];
+            for (i, h) in handles.into_iter().enumerate() {
+                conc_out.push(h.await.map_err(|e| format!("concurrent operation {} panicked: {}", i, e))?);
             }
-            let mut settle = vec![];
+            let (b_recs, mut reporter, mut client, mut slots) = hb.await.map_err(|e| format!("sequence B panicked: {}", e))?;
+            recs.extend(b_recs);
+            for (i, (mut r, stream)) in conc_out.into_iter().enumerate() {
+                match &sc.conc[i] {
+                    Op::Watch(_) => {
+                        slots.push(stream);
+                        r.slot = Some(slots.len() - 1);
+                    }
+                    Op::Next(s) => {
+                        if let Some(x) = slots.get_mut(*s) {
+                            *x = stream;
+                        }
+                    }
+                    _ => {}
+                }
+                recs.push(r);
+            }
             for s in 0..slots.len() {
                 for _ in 0..SETTLE_POLLS {
-                    settle.push(main_op(&mut reporter, &mut client, &mut slots, &Op::Next(s)).await);
+                    recs.push(stamped(&clock, &mut reporter, &mut client, &mut slots, &Op::Next(s), &Op::Next(s), 0, true).await);
                 }
             }
             for n in scenario_names(&sc) {
-                settle.push(main_op(&mut reporter, &mut client, &mut slots, &Op::Check(n)).await);
+                let op = Op::Check(n);
+                recs.push(stamped(&clock, &mut reporter, &mut client, &mut slots, &op, &op, 0, true).await);
             }
-            Ok::<Observed, String>(Observed { main, a: a_out, settle, a_done_before, a_polls: a_polls.load(SeqCst), b_polls: b_polls.load(SeqCst) })
+            Ok::<Vec<Rec>, String>(recs)
         };
         match tokio::time::timeout(std::time::Duration::from_secs(10), body).await {
             Ok(r) => r,
@@ -895,80 +1163,111 @@ fn run_interleaved(sc: &Scenario, k: usize, j: usize) -> Result<Observed, String
     })
 }
 
-/// The sequential history in which A takes effect just before b[i], with concrete stream
-/// numbers, and the observed outputs rearranged into that order.
-fn candidate(sc: &Scenario, o: &Observed, i: usize) -> (Vec<Op>, Op, Vec<Op>, Vec<Obs>) {
-    let nslots = n_slots(sc);
-    let mut idx: Vec<usize> = vec![NO_STREAM; nslots];
-    let mut next_idx = 0usize;
-    let mut main_slot = 0usize; // slot of the next main-task Watch
-    let a_slot = nslots.wrapping_sub(1);
-    let mut conc = |op: &Op, out: &Obs, is_a: bool, idx: &mut Vec<usize>| -> (Op, Obs) {
-        match op {
-            Op::Watch(n) => {
-                let slot = if is_a {
-                    a_slot
-                } else {
-                    main_slot += 1;
-                    main_slot - 1
-                };
-                let out2 = if let Obs::Watch(_) = out {
-                    idx[slot] = next_idx;
-                    next_idx += 1;
-                    Obs::Watch(idx[slot])
-                } else {
-                    out.clone()
-                };
-                (Op::Watch(n.clone()), out2)
-            }
-            Op::Next(j) => (Op::Next(idx.get(*j).copied().unwrap_or(NO_STREAM)), out.clone()),
-            o => (o.clone(), out.clone()),
-        }
-    };
-    let (mut pre, mut post, mut outs) = (vec![], vec![], vec![]);
-    let np = sc.prefix.len();
-    for (j, op) in sc.prefix.iter().chain(sc.b[..i].iter()).enumerate() {
-        let (c, x) = conc(op, &o.main[j], false, &mut idx);
-        pre.push(c);
-        outs.push(x);
-    }
-    let (a, ax) = conc(&sc.a, &o.a, true, &mut idx);
-    outs.push(ax);
-    for (j, op) in sc.b[i..].iter().enumerate() {
-        let (c, x) = conc(op, &o.main[np + i + j], false, &mut idx);
-        post.push(c);
-        outs.push(x);
-    }
-    let mut t = 0;
-    for j in 0..nslots {
-        for _ in 0..SETTLE_POLLS {
-            post.push(Op::Next(idx[j]));
-            outs.push(o.settle[t].clone());
-            t += 1;
+fn slot_table(recs: &[Rec]) -> Vec<usize> {
+    let n = recs.iter().filter_map(|r| r.slot).max().map(|m| m + 1).unwrap_or(0);
+    let mut t = vec![NO_STREAM; n];
+    for r in recs {
+        if let Some(s) = r.slot {
+            t[s] = r.inv;
         }
     }
-    for n in scenario_names(sc) {
-        post.push(Op::Check(n));
-        outs.push(o.settle[t].clone());
-        t += 1;
-    }
-    (pre, a, post, outs)
+    t
 }
-fn lin_tr(o: &Obs) -> Tr {
+fn obs_coq(o: &Obs) -> String {
+    let st = |v: &i32| match v {
+        0 => Some("Unknown"),
+        1 => Some("Serving"),
+        2 => Some("NotServing"),
+        _ => None,
+    };
     match o {
-        Obs::Watch(_) => Tr::tag(4, vec![]),
-        o => o.tr(),
+        Obs::Unit => "OUnit".into(),
+        Obs::Panic => "OPanic".into(),
+        Obs::Status(v) => st(v).map(|s| format!("OStatus {}", s)).unwrap_or("OFuel".into()),
+        Obs::NotFound => "ONotFound".into(),
+        Obs::Watch(_) => "OWatch 0%nat".into(),
+        Obs::Item(v) => st(v).map(|s| format!("OItem {}", s)).unwrap_or("OFuel".into()),
+        Obs::End => "OEnd".into(),
+        Obs::Pending => "OPending".into(),
+        Obs::NoWatcher => "ONoWatcher".into(),
+        // no constructor of the model: never equal to what the model returns
+        Obs::Other(_) => "OFuel".into(),
     }
+}
+/// the concurrent history as a Gallina `list cop`; a stream is named by the invocation time of
+/// its Watch call
+fn history_coq(recs: &[Rec]) -> String {
+    let t = slot_table(recs);
+    coq_list(recs, |r| {
+        let op = match &r.op {
+            Op::Next(s) => format!("Next {}%nat", t.get(*s).copied().unwrap_or(NO_STREAM)),
+            o => o.coq(),
+        };
+        format!("mkCop {}%nat {}%nat ({}) ({})", r.inv, r.ret, op, obs_coq(&r.out))
+    })
+}
+
+/// Every order of the calls that respects real time, as a sequential history with concrete
+/// stream numbers and the observed outputs rearranged into that order; `f` returns true to stop.
+fn for_each_linearization(recs: &[Rec], f: &mut dyn FnMut(&[Op], &[Obs]) -> bool) -> (usize, bool) {
+    fn go(recs: &[Rec], rem: &mut Vec<usize>, order: &mut Vec<usize>, count: &mut usize, f: &mut dyn FnMut(&[Op], &[Obs]) -> bool) -> bool {
+        if rem.is_empty() {
+            *count += 1;
+            let nslots = recs.iter().filter_map(|r| r.slot).max().map(|m| m + 1).unwrap_or(0);
+            let mut idx = vec![NO_STREAM; nslots];
+            let mut next_idx = 0usize;
+            let (mut ops, mut outs) = (vec![], vec![]);
+            for &i in order.iter() {
+                let r = &recs[i];
+                match &r.op {
+                    Op::Watch(n) => {
+                        let out = if let Obs::Watch(_) = r.out {
+                            if let Some(s) = r.slot {
+                                idx[s] = next_idx;
+                            }
+                            next_idx += 1;
+                            Obs::Watch(next_idx - 1)
+                        } else {
+                            r.out.clone()
+                        };
+                        ops.push(Op::Watch(n.clone()));
+                        outs.push(out);
+                    }
+                    Op::Next(s) => {
+                        ops.push(Op::Next(idx.get(*s).copied().unwrap_or(NO_STREAM)));
+                        outs.push(r.out.clone());
+                    }
+                    o => {
+                        ops.push(o.clone());
+                        outs.push(r.out.clone());
+                    }
+                }
+            }
+            return f(&ops, &outs);
+        }
+        let cands: Vec<usize> = rem.iter().copied().filter(|&i| !rem.iter().any(|&k| recs[k].ret < recs[i].inv)).collect();
+        for i in cands {
+            let pos = rem.iter().position(|&x| x == i).unwrap();
+            rem.remove(pos);
+            order.push(i);
+            let stop = go(recs, rem, order, count, f);
+            order.pop();
+            rem.insert(pos, i);
+            if stop {
+                return true;
+            }
+        }
+        false
+    }
+    let mut rem: Vec<usize> = (0..recs.len()).collect();
+    let mut count = 0;
+    let found = go(recs, &mut rem, &mut vec![], &mut count, f);
+    (count, found)
 }
 
 /// safety facts that hold for every schedule, whatever the linearization
-fn hard_facts(sc: &Scenario, o: &Observed) -> Option<String> {
-    let all: Vec<Op> = sc.prefix.iter().chain(std::iter::once(&sc.a)).chain(sc.b.iter()).map(|x| x.spec()).collect();
-    // name watched by each slot
-    let mut slot_name: Vec<String> = sc.prefix.iter().chain(sc.b.iter()).filter_map(|x| if let Op::Watch(n) = x { Some(n.clone()) } else { None }).collect();
-    if let Op::Watch(n) = &sc.a {
-        slot_name.push(n.clone());
-    }
+fn hard_facts(recs: &[Rec]) -> Option<String> {
+    let all: Vec<Op> = recs.iter().map(|r| r.op.spec()).collect();
     let set_for = |n: &str| -> Vec<i32> {
         let mut v: Vec<i32> = all.iter().filter_map(|x| match x { Op::Set(m, s) if m == n => Some(*s as i32), _ => None }).collect();
         if n.is_empty() {
@@ -977,57 +1276,58 @@ fn hard_facts(sc: &Scenario, o: &Observed) -> Option<String> {
         v
     };
     let cleared = |n: &str| all.iter().any(|x| matches!(x, Op::Clear(m) if m == n));
-    // every stream event, per slot, in observation order
-    let mut per_slot: Vec<Vec<Obs>> = vec![vec![]; slot_name.len()];
-    for (op, out) in sc.prefix.iter().chain(sc.b.iter()).zip(&o.main) {
-        if let Op::Next(j) = op {
-            if *j < per_slot.len() {
-                per_slot[*j].push(out.clone());
-            }
+    for r in recs {
+        if matches!(r.out, Obs::Panic | Obs::Other(_)) {
+            return Some(format!("{:?} answered {:?}", r.op, r.out));
+        }
+        if r.ret <= r.inv {
+            return Some(format!("clock: {:?} returned at {} but was invoked at {}", r.op, r.ret, r.inv));
         }
     }
-    for j in 0..slot_name.len() {
-        for t in 0..SETTLE_POLLS {
-            per_slot[j].push(o.settle[j * SETTLE_POLLS + t].clone());
+    // name watched by each slot, and every event of its stream in observation order
+    let nslots = recs.iter().filter_map(|r| r.slot).max().map(|m| m + 1).unwrap_or(0);
+    let mut slot_name: Vec<Option<String>> = vec![None; nslots];
+    for r in recs {
+        if let (Some(s), Op::Watch(n)) = (r.slot, &r.op) {
+            slot_name[s] = Some(n.clone());
         }
     }
-    let names = scenario_names(sc);
-    let checks = &o.settle[slot_name.len() * SETTLE_POLLS..];
-    for (j, evs) in per_slot.iter().enumerate() {
-        let n = &slot_name[j];
-        for e in evs {
-            match e {
+    let final_check = |n: &str| recs.iter().rev().find(|r| r.settle && matches!(&r.op, Op::Check(m) if m == n)).map(|r| r.out.clone());
+    for (j, n) in slot_name.iter().enumerate() {
+        let Some(n) = n else { continue };
+        let mut evs: Vec<&Rec> = recs.iter().filter(|r| matches!(r.op, Op::Next(s) if s == j)).collect();
+        evs.sort_by_key(|r| r.inv);
+        for e in &evs {
+            match &e.out {
                 Obs::End if !cleared(n) => return Some(format!("stream {} of {:?} ended although the service was never cleared", j, n)),
                 Obs::Item(v) if !set_for(n).contains(v) => return Some(format!("stream {} of {:?} reported {} which was never set for it", j, n, v)),
-                Obs::Panic | Obs::Other(_) => return Some(format!("stream {} of {:?}: {:?}", j, n, e)),
                 _ => {}
             }
         }
-        let fin = &checks[names.iter().position(|x| x == n).unwrap()];
-        let ended = evs.iter().any(|e| *e == Obs::End);
-        let last = evs.iter().rev().find_map(|e| if let Obs::Item(v) = e { Some(*v) } else { None });
-        let opened = evs.iter().any(|e| *e != Obs::NoWatcher);
+        let ended = evs.iter().any(|e| e.out == Obs::End);
+        let last = evs.iter().rev().find_map(|e| if let Obs::Item(v) = e.out { Some(v) } else { None });
+        let opened = evs.iter().any(|e| e.out != Obs::NoWatcher);
         if opened && !ended {
-            match fin {
-                Obs::Status(v) if last == Some(*v) => {}
+            match final_check(n) {
+                Some(Obs::Status(v)) if last == Some(v) => {}
                 f => return Some(format!("live stream {} of {:?} converged to {:?} but the final check says {:?}", j, n, last, f)),
             }
         }
     }
-    for (n, c) in names.iter().zip(checks) {
-        match c {
-            Obs::Status(v) if set_for(n).contains(v) => {}
-            Obs::NotFound if cleared(n) || set_for(n).is_empty() => {}
-            c => return Some(format!("final check({:?}) = {:?}: not a status set by any writer", n, c)),
+    for r in recs.iter().filter(|r| r.settle) {
+        if let Op::Check(n) = &r.op {
+            match &r.out {
+                Obs::Status(v) if set_for(n).contains(v) => {}
+                Obs::NotFound if cleared(n) || set_for(n).is_empty() => {}
+                c => return Some(format!("final check({:?}) = {:?}: not a status set by any writer", n, c)),
+            }
         }
     }
     None
 }
 
-fn push_interleaving(out: &mut Out, sc: &Scenario, k: usize, j: usize, tag: &str) {
-    let ops_json = |v: &[Op]| Value::Array(v.iter().map(|o| o.json()).collect());
-    let input = json!({"scenario": tag, "prefix": ops_json(&sc.prefix), "a": sc.a.json(), "b": ops_json(&sc.b), "k": k, "j": j});
-    let kind = format!("interleave.{}", match &sc.a {
+fn op_word(o: &Op) -> &'static str {
+    match o {
         Op::Set(..) => "set",
         Op::SetServing(_) => "set_serving",
         Op::SetNotServing(_) => "set_not_serving",
@@ -1035,51 +1335,63 @@ fn push_interleaving(out: &mut Out, sc: &Scenario, k: usize, j: usize, tag: &str
         Op::Watch(_) => "watch",
         Op::Check(_) => "check",
         Op::Next(_) => "next",
-    });
-    let o = match run_interleaved(sc, k, j) {
+    }
+}
+fn interleave_kind(sc: &Scenario) -> String {
+    if sc.conc.len() == 1 {
+        format!("interleave.{}", op_word(&sc.conc[0]))
+    } else {
+        format!("interleave{}.{}", sc.conc.len() + 1, sc.conc.iter().map(op_word).collect::<Vec<_>>().join("+"))
+    }
+}
+/// runs one grid point; returns false if the same concurrent history was already recorded for
+/// this scenario (the verdict would be the same)
+fn push_interleaving(out: &mut Out, seen: &mut std::collections::HashSet<String>, sc: &Scenario, ks: &[usize], j: usize, tag: &str) -> bool {
+    let ops_json = |v: &[Op]| Value::Array(v.iter().map(|o| o.json()).collect());
+    let kind = interleave_kind(sc);
+    let mut input = json!({"scenario": tag, "prefix": ops_json(&sc.prefix), "conc": ops_json(&sc.conc), "b": ops_json(&sc.b), "ks": ks, "j": j});
+    let recs = match run_interleaved(sc, ks, j) {
         Ok(o) => o,
         Err(e) => {
-            out.push(Case { kind, input, model: "Nn 1".into(), impl_obs: Tr::n(1u32), oracle: Some(e), nontrivial: false });
-            return;
+            out.push(Case { kind, input, model: "Nn 0".into(), impl_obs: Tr::n(1u32), oracle: Some(e), nontrivial: false });
+            return true;
         }
     };
-    // real time: A precedes every operation of B that started after A had finished
-    let d = o.a_done_before.iter().position(|x| *x).unwrap_or(sc.b.len());
-    let positions: Vec<usize> = (0..=d).collect();
-    let mut verdicts = vec![];
-    let mut cands = vec![];
-    let mut lin = false;
-    for i in &positions {
-        let (pre, a, post, outs) = candidate(sc, &o, *i);
-        let mut hist = pre.clone();
-        hist.push(a.clone());
-        hist.extend(post.iter().cloned());
-        match oracle_settled(&hist, &outs) {
-            None => lin = true,
-            Some(e) => verdicts.push(format!("A before b[{}]: {}", i, e)),
+    let hist = history_coq(&recs);
+    if !seen.insert(format!("{}|{}", tag, hist)) {
+        return false;
+    }
+    let mut verdict = hard_facts(&recs);
+    let mut reasons = vec![];
+    let (orders, lin) = for_each_linearization(&recs, &mut |ops, outs| match oracle_settled(ops, outs) {
+        None => true,
+        Some(e) => {
+            if reasons.len() < 4 {
+                reasons.push(e);
+            }
+            false
         }
-        let l = |v: &[Op]| coq_list(v, |o| format!("({})", o.coq()));
-        cands.push(format!("({},{},{})", l(&pre), a.coq(), l(&post)));
-    }
-    let mut verdict = hard_facts(sc, &o);
+    });
     if verdict.is_none() && !lin {
-        verdict = Some(format!("not linearizable: no sequential order with A atomic explains the outcome ({})", verdicts.join("; ")));
+        verdict = Some(format!("not linearizable: none of the {} orders that respect real time explains the outcome ({})", orders, reasons.join("; ")));
     }
-    // canonical layout of the observation: prefix and B in program order, the closing polls, then A
-    let mut obs: Vec<Tr> = o.main.iter().chain(o.settle.iter()).map(lin_tr).collect();
-    obs.push(lin_tr(&o.a));
-    out.hist("interleave: operations of B started before A finished", d);
-    out.hist("interleave: polls of A", o.a_polls.min(4));
-    out.hist("interleave: polls of B", o.b_polls.min(4));
-    out.hist("interleave: candidate orders", positions.len());
+    // how much the calls of the concurrent tasks overlapped the main task's
+    let overlap = |r: &Rec| recs.iter().filter(|x| x.task != r.task && !(x.ret < r.inv || r.ret < x.inv)).count();
+    let max_overlap = recs.iter().filter(|r| r.task > 0).map(|r| overlap(r)).max().unwrap_or(0);
+    let switched = recs.iter().filter(|r| !r.settle && r.polls > 1).count();
+    out.hist("interleave: calls overlapping a concurrent task's call (max)", max_overlap.min(5));
+    out.hist("interleave: calls that were switched out", switched.min(4));
+    out.hist("interleave: orders respecting real time (until the first that fits)", match orders { 0 => "0", 1 => "1", 2..=3 => "2-3", 4..=9 => "4-9", _ => "10+" });
+    input["history"] = Value::Array(recs.iter().map(|r| json!([r.inv, r.ret, r.op.json(), format!("{:?}", r.out)])).collect());
     out.push(Case {
         kind,
         input,
-        model: format!("obs_linearizable [{}] {}", cands.join(";"), Tr::L(obs).to_coq()),
+        model: format!("obs_conc {}", hist),
         impl_obs: Tr::n(1u32),
         oracle: verdict,
-        nontrivial: o.a_polls > 1 || o.b_polls > 1,
+        nontrivial: max_overlap > 0,
     });
+    true
 }
 
 fn interleaving_scenarios() -> Vec<(String, Scenario)> {
@@ -1094,9 +1406,22 @@ fn interleaving_scenarios() -> Vec<(String, Scenario)> {
     let a_ops: Vec<(&str, Op)> = vec![
         ("set", Set(a(), 2)),
         ("set_not_serving", SetNotServing(0)), // set_not_serving::<SvcA>(), NAME = "a"
+        ("set_serving", SetServing(0)),        // set_serving::<SvcA>()
         ("clear", Clear(a())),
         ("watch", Watch(a())),
         ("check", Check(a())),
+        ("next", Next(0)), // a poll of the prefix's stream by another task
+    ];
+    let pairs: Vec<(&str, Op, Op)> = vec![
+        ("set+clear", Set(a(), 2), Clear(a())),
+        ("set+watch", Set(a(), 2), Watch(a())),
+        ("set+check", SetNotServing(0), Check(a())),
+        ("clear+watch", Clear(a()), Watch(a())),
+        ("clear+set_serving", Clear(a()), SetServing(0)),
+        ("watch+check", Watch(a()), Check(a())),
+        ("set+set", Set(a(), 2), SetServing(0)),
+        ("next+set", Next(0), Set(a(), 2)),
+        ("next+clear", Next(0), Clear(a())),
     ];
     let mut v = vec![];
     for (pn, p) in &prefixes {
@@ -1112,30 +1437,42 @@ fn interleaving_scenarios() -> Vec<(String, Scenario)> {
             ("watch-poll-set-poll", vec![Watch(a()), Next(w), Set(a(), 0), Next(w)]),
         ];
         for (an, ao) in &a_ops {
+            if matches!(ao, Next(_)) && w == 0 {
+                continue;
+            }
             for (bn, b) in &bs {
-                v.push((format!("{}.{}-vs-{}", pn, an, bn), Scenario { prefix: p.clone(), a: ao.clone(), b: b.clone() }));
+                v.push((format!("{}.{}-vs-{}", pn, an, bn), Scenario { prefix: p.clone(), conc: vec![ao.clone()], b: b.clone() }));
+            }
+        }
+        for (qn, x, y) in &pairs {
+            if matches!(x, Next(_)) && w == 0 {
+                continue;
+            }
+            for (bn, b) in bs.iter().filter(|(bn, _)| ["set", "watch-poll", "clear-set"].contains(bn)) {
+                v.push((format!("{}.{}-vs-{}", pn, qn, bn), Scenario { prefix: p.clone(), conc: vec![x.clone(), y.clone()], b: b.clone() }));
             }
         }
     }
     v
 }
-/// (k, j): budget units burnt by A and by B before they start.  j = 0 leaves B unpreempted and
-/// sweeps every k; the sub-grid parks A at its first / second acquisition (k = 128 / 127 ...)
-/// and B after its first .. eighth budget unit (j = 127 .. 120).
-fn burn_grid(thorough: bool) -> Vec<(usize, usize)> {
-    // A parks inside its (129 - k)-th budget unit: k >= 112 reaches the first 17 acquisitions of
-    // A; smaller k only delay nothing (the thorough tier sweeps them all the same)
-    let mut g: Vec<(usize, usize)> = (0..=130).filter(|k| thorough || *k >= 112 || [0, 1, 2, 32, 64, 96].contains(k)).map(|k| (k, 0)).collect();
-    let ks: Vec<usize> = if thorough { vec![0, 64, 120, 121, 122, 123, 124, 125, 126, 127, 128, 129, 130] } else { vec![0, 125, 126, 127, 128, 129] };
-    let js: Vec<usize> = if thorough { (117..=129).collect() } else { (121..=128).collect() };
-    for k in &ks {
-        for j in &js {
-            g.push((*k, *j));
-        }
+/// Budget offsets (units burnt before the task's first call; a poll of a task has 128 units).
+/// k < 128: the call runs at once; k = 128 - m: the task is switched out at its (m+1)-th budget
+/// unit, i.e. k = 128 parks the call INSIDE its lock acquisition (invoked, not yet effective),
+/// k = 129 + m: the task first gives way once (the others run before the call is invoked), then
+/// has burnt m units of a fresh budget (k = 256: gives way, then parks inside the acquisition).
+fn offsets(thorough: bool, wide: bool) -> Vec<usize> {
+    if thorough && wide {
+        let mut v: Vec<usize> = (0..=130).collect();
+        v.extend([255, 256, 257, 384]);
+        v
+    } else if thorough {
+        vec![0, 64, 120, 121, 122, 123, 124, 125, 126, 127, 128, 129, 130, 256, 384]
+    } else if wide {
+        vec![0, 1, 64, 122, 123, 124, 125, 126, 127, 128, 129, 130, 256]
+    } else {
+        vec![0, 126, 127, 128, 130, 256]
     }
-    g
 }
-
 // ------------------------------------------------------------------ wake-ups
 // A stream that is AWAITED (not polled by hand): the awaiting task parks inside `next()` with its
 // waker registered in the watch channel; when another task sets or clears the service the
@@ -1309,8 +1646,9 @@ fn main() {
         let kind = c["kind"].as_str().unwrap_or("replay");
         let list = |v: &Value| -> Vec<Op> { v.as_array().map(|x| x.iter().map(Op::from_json).collect()).unwrap_or_default() };
         if kind.starts_with("interleave") {
-            let sc = Scenario { prefix: list(&c["input"]["prefix"]), a: Op::from_json(&c["input"]["a"]), b: list(&c["input"]["b"]) };
-            push_interleaving(&mut out, &sc, c["input"]["k"].as_u64().unwrap_or(0) as usize, c["input"]["j"].as_u64().unwrap_or(0) as usize, c["input"]["scenario"].as_str().unwrap_or("replay"));
+            let sc = Scenario { prefix: list(&c["input"]["prefix"]), conc: list(&c["input"]["conc"]), b: list(&c["input"]["b"]) };
+            let ks: Vec<usize> = c["input"]["ks"].as_array().map(|v| v.iter().map(|x| x.as_u64().unwrap_or(0) as usize).collect()).unwrap_or_default();
+            push_interleaving(&mut out, &mut Default::default(), &sc, &ks, c["input"]["j"].as_u64().unwrap_or(0) as usize, c["input"]["scenario"].as_str().unwrap_or("replay"));
         } else if kind == "wake" {
             let tag = c["input"]["scenario"].as_str().unwrap_or("");
             let n = c["input"]["watchers"].as_u64().unwrap_or(1) as usize;
@@ -1320,24 +1658,58 @@ fn main() {
         } else {
             let ops = list(&c["input"]["ops"]);
             let settled = c["input"]["settled"].as_bool().unwrap_or(false);
-            push_case(&mut out, kind, ops, settled);
+            let clones = c["input"]["clones"].as_array().map(|v| (v[0].as_u64().unwrap_or(1) as usize, v[1].as_u64().unwrap_or(1) as usize, v[2].as_u64().unwrap_or(0)));
+            push_case_on(&mut out, kind, ops, settled, clones);
         }
         out.finish(IMPORTS, "replay of one stored history", json!({}));
         return;
     }
 
-    for (k, ops) in corpus() {
+    for (i, (k, ops)) in corpus().into_iter().enumerate() {
         push_case(&mut out, k, ops.clone(), false);
         let mut s = ops;
         settle(&mut s);
-        push_case(&mut out, k, s, true);
+        push_case(&mut out, k, s.clone(), true);
+        // the same history spread over clones of the reporter and clients on clones of the server
+        push_case_on(&mut out, "clones.corpus", s, true, Some((3, 2, a.seed.wrapping_mul(31).wrapping_add(i as u64))));
     }
 
-    // deterministic interleavings: task switches at the cooperative yield points of A and of B
-    let grid = burn_grid(a.thorough);
-    for (tag, sc) in interleaving_scenarios() {
-        for (k, j) in &grid {
-            push_interleaving(&mut out, &sc, *k, *j, &tag);
+    // deterministic interleavings: task switches at the cooperative yield points of every task;
+    // grid points that produce a concurrent history already recorded for the scenario are counted only
+    let (mut grid_runs, mut grid_distinct) = (0u64, 0u64);
+    {
+        let mut seen = std::collections::HashSet::new();
+        let js_few: Vec<usize> = if a.thorough { vec![0, 127, 128, 256] } else { vec![0, 128] };
+        let js_many: Vec<usize> = if a.thorough { (117..=130).chain([0, 256]).collect() } else { vec![0, 124, 125, 126, 127, 128, 256] };
+        let js_3: Vec<usize> = if a.thorough { vec![0, 125, 126, 127, 128, 256] } else { vec![0, 127, 128] };
+        for (tag, sc) in interleaving_scenarios() {
+            let mut grid: Vec<(Vec<usize>, usize)> = vec![];
+            if sc.conc.len() == 1 {
+                for k in offsets(a.thorough, true) {
+                    for j in &js_few {
+                        grid.push((vec![k], *j));
+                    }
+                }
+                for k in offsets(a.thorough, false) {
+                    for j in &js_many {
+                        grid.push((vec![k], *j));
+                    }
+                }
+            } else {
+                for k in offsets(a.thorough, false) {
+                    for k2 in offsets(a.thorough, false) {
+                        for j in &js_3 {
+                            grid.push((vec![k, k2], *j));
+                        }
+                    }
+                }
+            }
+            for (ks, j) in &grid {
+                grid_runs += 1;
+                if push_interleaving(&mut out, &mut seen, &sc, ks, *j, &tag) {
+                    grid_distinct += 1;
+                }
+            }
         }
     }
     // awaited streams are woken by set / clear
@@ -1345,12 +1717,12 @@ fn main() {
         push_wake(&mut out, &sc);
     }
     // supporting evidence only: concurrent writers / watchers / checkers, multi-thread runtime
-    for round in 0..(if a.thorough { 8u64 } else { 2 }) {
+    for round in 0..(if a.thorough { 8u64 } else { 3 }) {
         let res = stress(a.seed, round);
         out.hist("stress rounds", if res.is_ok() { "ok" } else { "failed" });
         out.push(Case {
             kind: "stress".into(),
-            input: json!({"round": round, "seed": a.seed, "writers": 4, "sets per writer": 400, "watchers": 12, "checkers": 2, "result": res.clone().unwrap_or(json!(null))}),
+            input: json!({"round": round, "seed": a.seed, "writers": 4, "sets per writer": 400, "services": 7, "watchers": 21, "checkers": 2, "clear/re-register rounds": 200, "re-subscribing watchers": 2, "result": res.clone().unwrap_or(json!(null))}),
             model: "Nn 1".into(),
             impl_obs: Tr::n(1u32),
             oracle: res.err(),
@@ -1373,50 +1745,59 @@ fn main() {
         if settled {
             settle(&mut ops);
         }
-        push_case(&mut out, if settled { "random.settled" } else { "random" }, ops, settled);
+        if i % 5 == 4 {
+            let c = (r.range(1, 4) as usize, r.range(1, 3) as usize, r.next());
+            push_case_on(&mut out, "random.clones", ops, settled, Some(c));
+        } else {
+            push_case(&mut out, if settled { "random.settled" } else { "random" }, ops, settled);
+        }
     }
 
-    let mut exhaustive = json!(null);
-    if a.thorough {
-        // exhaustive small scope: one name, all three statuses, two streams, every history of
-        // length <= 5; two names with two statuses, two streams, length <= 4
-        let mut count = 0u64;
-        let alpha1 = all_ops(&["a"], &[0, 1, 2], 2);
-        for len in 0..=5 {
-            enumerate(&alpha1, len, &mut |h| {
-                count += 1;
-                let mut ops = h.to_vec();
-                settle(&mut ops);
-                push_case(&mut out, "exhaustive.one-name", ops, true);
-            });
+    // exhaustive small scope.  One name, all three statuses, two streams; two names ("" by
+    // set_service_status, "a" through the typed API) with two statuses, two streams; one name
+    // through the typed API with polls of the first stream only and no check.  For each family:
+    // EVERY history up to the length `full`, and of the histories of the next lengths every
+    // `stride`-th one (offset by the seed); the thorough tier has stride 1 everywhere.
+    let exhaustive;
+    {
+        let families: Vec<(&str, Vec<Op>, usize, Vec<(usize, u64)>)> = vec![
+            ("exhaustive.one-name", all_ops(&["a"], &[0, 1, 2], 2), if a.thorough { 5 } else { 3 }, if a.thorough { vec![] } else { vec![(4, 6), (5, 97)] }),
+            ("exhaustive.two-names", all_ops_typed(&["", "a"], &[1, 2], 2, true), if a.thorough { 4 } else { 2 }, if a.thorough { vec![] } else { vec![(3, 5), (4, 89)] }),
+            (
+                "exhaustive.length-6",
+                all_ops_typed(&["a"], &[1, 2], 1, true).into_iter().filter(|o| !matches!(o, Op::Check(_))).collect(),
+                if a.thorough { 6 } else { 3 },
+                if a.thorough { vec![] } else { vec![(4, 3), (5, 13), (6, 61)] },
+            ),
+        ];
+        let mut report = serde_json::Map::new();
+        for (kind, alpha, full, sampled) in families {
+            let mut per_len = serde_json::Map::new();
+            let plan: Vec<(usize, u64)> = (0..=full).map(|l| (l, 1u64)).chain(sampled.into_iter()).collect();
+            for (len, stride) in plan {
+                let (mut total, mut run) = (0u64, 0u64);
+                enumerate(&alpha, len, &mut |h| {
+                    total += 1;
+                    if (total + a.seed) % stride != 0 {
+                        return;
+                    }
+                    run += 1;
+                    let mut ops = h.to_vec();
+                    settle(&mut ops);
+                    push_case(&mut out, kind, ops, true);
+                });
+                per_len.insert(format!("length {}", len), json!({"histories": total, "run": run, "complete": stride == 1}));
+            }
+            report.insert(kind.to_string(), json!({"alphabet": alpha.iter().map(|o| o.json()).collect::<Vec<_>>(), "complete up to length": full, "per length": per_len}));
         }
-        let c1 = count;
-        let alpha2 = all_ops_typed(&["", "a"], &[1, 2], 2, true);
-        for len in 0..=4 {
-            enumerate(&alpha2, len, &mut |h| {
-                count += 1;
-                let mut ops = h.to_vec();
-                settle(&mut ops);
-                push_case(&mut out, "exhaustive.two-names", ops, true);
-            });
-        }
-        let c2 = count;
-        // length 6 over {set_serving::<SvcA>, set_not_serving::<SvcA>, clear a, watch a, next 0}
-        let alpha3: Vec<Op> = all_ops_typed(&["a"], &[1, 2], 1, true).into_iter().filter(|o| !matches!(o, Op::Check(_))).collect();
-        enumerate(&alpha3, 6, &mut |h| {
-            count += 1;
-            let mut ops = h.to_vec();
-            settle(&mut ops);
-            push_case(&mut out, "exhaustive.length-6", ops, true);
-        });
-        exhaustive = json!({"one name x 3 statuses x 2 streams, every history of length <= 5": c1,
-                            "two names ('' by set_service_status, a by set_serving/set_not_serving::<SvcA>) x 2 statuses x 2 streams, every history of length <= 4": c2 - c1,
-                            "one name set through set_serving/set_not_serving::<SvcA>, polls of the first stream only, no check, every history of length 6": count - c2});
+        exhaustive = Value::Object(report);
     }
 
     out.finish(
         IMPORTS,
-        "interleave.*: operation A and the sequence B run in two spawned tasks of a current-thread tokio runtime (event_interval 1) after burning k resp. j units of the cooperative budget, so that each is switched out at its lock acquisitions / stream polls in turn and A resumes between the operations of B; the outcome must equal the model's outcome for one of the sequential histories with A atomic that real time allows (obs_linearizable), the oracle checks the same against the plain-map replay plus the schedule-independent safety facts | wake: tasks AWAIT their streams, another task sets / clears, the awaiting tasks must be polled again within a bounded number of scheduler turns; outputs compared with obs_history of the corresponding sequential history | stress: multi-thread runtime, safety and convergence only | every other kind: a history over {set_service_status, set_serving::<S>, set_not_serving::<S>, clear, check, watch, next} is executed on the real health_reporter()/HealthServer pair through the generated HealthClient (in-process, Next = one poll of the response stream) and its list of outputs is compared with obs_history of the model; the oracle replays the history against a plain map and per-stream status lists",
-        json!({"exhaustive": exhaustive}),
+        "interleave.* / interleaveN.*: one operation per concurrent task (1 or 2 tasks) and the sequence B run in spawned tasks of a current-thread tokio runtime (event_interval 1) after burning given units of the cooperative budget, so that each is switched out at its lock acquisitions in turn and resumes between the operations of the others; every call is stamped with a logical clock at invocation and return; the recorded concurrent history must be linearizable: Coq searches an order that respects real time and in which the model returns every result (obs_conc = lin_check, proved complete for the lock-step machine of Model/Health.v), the oracle searches the orders that respect real time with the plain-map replay, plus the schedule-independent safety facts; grid points that reproduce a history already recorded for the scenario are only counted | wake: tasks AWAIT their streams, another task sets / clears, the awaiting tasks must be polled again within a bounded number of scheduler turns; outputs compared with obs_history of the corresponding sequential history | stress: multi-thread runtime, safety and convergence only | every other kind: a history over {set_service_status, set_serving::<S>, set_not_serving::<S>, clear, check, watch, next} is executed on the real health_reporter()/HealthServer pair through the generated HealthClient (in-process, Next = one poll of the response stream; *.clones: spread over clones of the reporter and clients on clones of the server) and its list of outputs is compared with obs_history of the model; the oracle replays the history against a plain map and per-stream status lists",
+        // "exhaustive" (which sets the evidence's exhaustive flag) only when every family was
+        // enumerated completely up to its design bound, i.e. in the thorough tier
+        json!({"exhaustive": if a.thorough { exhaustive.clone() } else { Value::Null }, "exhaustive_families": exhaustive, "interleave": {"grid points run": grid_runs, "distinct concurrent histories (= cases)": grid_distinct}}),
     );
 }
